@@ -105,7 +105,7 @@ def g6_modifiers(ctx, g, prefix):
 
 
 def _macro_args_shape(g):
-    parts = g.seq_of("macro_args")
+    parts = flatten(g.rules["macro_args"]["expr"], "seq")
     desc = []
     for p in parts:
         if p["k"] == "str":
@@ -166,8 +166,24 @@ def g9_kvp_value(ctx, g, prefix):
     ctx.check(g.ty("kvp_value") != "silent" and g.ty("kvp_key") != "silent", prefix, "G9|kv-visible", "G9: kvp_key / kvp_value are visible to the finder", W)
 
 
+def target_rule(g):
+    """name of the optional rule of macro_args whose text begins with `target:` (found by role, not by name)"""
+    if "macro_args" not in g.rules:
+        return None
+    for kind, name in _macro_args_shape(g):
+        if kind in ("opt", "rule") and name in g.rules:
+            # look at the rule's own expression (NOT inlined: a silent target rule must still be found)
+            parts = flatten(g.rules[name]["expr"], "seq")
+            if parts and parts[0].get("k") == "str" and parts[0].get("v") == "target:":
+                return name
+    return None
+
+
 def g10_target_visible(ctx, g, prefix):
-    if not need(ctx, g, prefix, ["macro_args", "target_arg"]):
+    if not need(ctx, g, prefix, ["macro_args"]):
+        return
+    T = target_rule(g)
+    if not ctx.check(T is not None, prefix, "G10|target-rule", "G10: macro_args has an optional `target:` rule", W):
         return
     d = _macro_args_shape(g)
     between = []
@@ -180,12 +196,12 @@ def g10_target_visible(ctx, g, prefix):
             break
         if seen_open:
             between.append((kind, name))
-    only_target = all(name == "target_arg" for _, name in between)
+    only_target = all(name == T for _, name in between)
     ctx.check(only_target, prefix, "G10|between", "G10: between `(` and the key-values only the target argument may appear (%s)" % between, W)
-    if any(name == "target_arg" for _, name in between):
-        ctx.check(g.ty("target_arg") != "silent", prefix, "G10|target-visible",
-                  "G10: target_arg is a visible pair, so the structured-new anchor can be placed after it", W)
-    ta = g.seq_of("target_arg")
+    if any(name == T for _, name in between):
+        ctx.check(g.ty(T) != "silent", prefix, "G10|target-visible",
+                  "G10: the target rule `%s` is a visible pair, so the structured-new anchor can be placed after it" % T, W)
+    ta = flatten(g.inline(g.rules[T]["expr"]), "seq")
     mid = ta[1:-1]
     firsts = set()
     for m in mid:
@@ -237,7 +253,7 @@ def g14_order(ctx, g, prefix):
     if not need(ctx, g, prefix, ["macro_args", "log_macro"]):
         return
     d = _macro_args_shape(g)
-    want = [("str", "("), ("opt", "target_arg"), ("opt", "kvp_args"), ("rule", "string_literal")]
+    want = [("str", "("), ("opt", target_rule(g) or "target_arg"), ("opt", "kvp_args"), ("rule", "string_literal")]
     ctx.check(d == want, prefix, "G14|order", "G14: macro_args = `(` target? key-values? literal (%s)" % d, W)
     lm = g.seq_of("log_macro")
     shape = [(p["k"], p.get("v")) for p in lm]
